@@ -369,7 +369,8 @@ Definition parse (fuel : nat) (img : image) (ptr : list Z) (isz root_ext root_le
    none) at the end of the file.  Extents come out of struct.unpack('<L'): a negative one cannot occur. *)
 Definition ps_file_read (bytes : list Z) (ext len : Z) : option (list Z) :=
   if (ext <? 0) || (len <? 0) then None
-  else Some (firstn (Z.to_nat len) (skipn (Z.to_nat (ext * BS)) bytes)).
+  else Some (firstn (Z.to_nat (Z.min len (zlen bytes)))
+                    (skipn (Z.to_nat (Z.min (ext * BS) (zlen bytes))) bytes)).   (* = bytes[ext*2048:][:len] *)
 
 Definition parse_file (fuel : nat) (bytes : list Z) (ptr : list Z) (root_ext root_len : Z) : presult pgraph :=
   ps_parse fuel (ps_file_read bytes) ptr (zlen bytes) root_ext root_len.
@@ -448,7 +449,6 @@ Definition graph_of (dt : list Z) (t : node) : pgraph :=
 Definition ps_ptr_exts (t : node) : list Z := map (ms_ext_at (ms_DB t)) (ms_dir_positions t).
 
 Definition ps_fuel (t : node) : nat := S (tsize (ms_dtree t)).
-
 (* ---- from the opened object back to a tree --------------------------------------------------------- *)
 
 (* children[2:] of directory [id]; a record that heads a directory becomes Dir, any other File;
@@ -522,9 +522,7 @@ Fixpoint ps_names_ok (n : node) : bool :=
 Definition ps_tree_ok (t : node) : bool :=
   wf_tree t && forallb ps_names_ok (Account.kids_of t).
 
-(* ---- sharing ------------------------------------------------------------------------------------------ *)
-
-(* all records of the graph, with (directory number, index in its children list) *)
+(* all records of the graph *)
 Definition ps_all_recs (g : pgraph) : list prec := concat (g_dirs g).
 
 (* ---- harness -------------------------------------------------------------------------------------------- *)
@@ -533,19 +531,15 @@ Definition ps_all_recs (g : pgraph) : list prec := concat (g_dirs g).
    (file_ident, file_flags, extent_location(), data_length, dr_len,
     (index_in_parent, extents_to_here, offset_to_here), (inode index or -1, directory number or -1)) *)
 Definition erec : Type := (list Z * Z * Z * Z * Z * (Z * Z * Z) * (Z * Z))%type.
-
 Definition ps_oz (o : option nat) : Z := match o with Some k => Z.of_nat k | None => -1 end.
-
 Definition ps_erec_of (c : prec) : erec :=
   (Codec.ident (p_rec c), flags (p_rec c), extent (p_rec c), p_dlen c, p_drlen c,
    (p_idx c, p_eth c, p_oth c), (ps_oz (p_ino c), ps_oz (p_dir c))).
-
 Definition ps_erec_eqb (a b : erec) : bool :=
   let '(n1, f1, e1, l1, d1, (i1, x1, o1), (k1, m1)) := a in
   let '(n2, f2, e2, l2, d2, (i2, x2, o2), (k2, m2)) := b in
   zlist_eqb n1 n2 && (f1 =? f2) && (e1 =? e2) && (l1 =? l2) && (d1 =? d2) && (i1 =? i2) && (x1 =? x2)
   && (o1 =? o2) && (k1 =? k2) && (m1 =? m2).
-
 Fixpoint ps_list_eqb {A} (eqb : A -> A -> bool) (a b : list A) : bool :=
   match a, b with
   | [], [] => true
@@ -556,12 +550,10 @@ Fixpoint ps_list_eqb {A} (eqb : A -> A -> bool) (a b : list A) : bool :=
 (* the expected graph: children lists in walk order, iso.inodes as (extent_location(), length),
    interchange_level, the largest end of file data *)
 Definition egraph : Type := (list (list erec) * list (Z * Z) * Z * Z)%type.
-
 Definition ps_graph_eqb (g : pgraph) (e : egraph) : bool :=
   let '(dirs, inodes, lvl, lastb) := e in
   ps_list_eqb (ps_list_eqb ps_erec_eqb) (map (map ps_erec_of) (g_dirs g)) dirs
   && zz_list_eqb (g_inodes g) inodes && (g_level g =? lvl) && (g_lastbyte g =? lastb).
-
 Fixpoint ps_node_eqb (a b : node) : bool :=
   match a, b with
   | File n1 l1, File n2 l2 => zlist_eqb n1 n2 && (l1 =? l2)
@@ -582,7 +574,6 @@ Fixpoint ps_node_eqb (a b : node) : bool :=
             the object graph read off the opened object, second image = first image) *)
 Definition ps_case : Type :=
   (option node * list Z * (Z * Z) * list Z * Z * list (Z * list (Z * list Z)) * egraph * bool)%type.
-
 Definition ps_case_ok (c : ps_case) : bool :=
   let '(ot, dt, (re, rl), ptr, isz, expected, eg, fix_flag) := c in
   let img := map (fun x : Z * list (Z * list Z) => (fst x, ms_unrle (snd x))) expected in
@@ -601,7 +592,6 @@ Definition ps_case_ok (c : ps_case) : bool :=
       end
   | _ => false
   end.
-
 Fixpoint bad_parse_cases (k : nat) (cs : list ps_case) : list nat :=
   match cs with
   | [] => []
